@@ -276,13 +276,14 @@ static Cfg cfg;
 enum { B_NEW, B_CLONE, B_CLEAR, B_CXXASSIGN, B_TINIT, B_TFINI, B_ADDREF, B_UNREFRAW, B_DETACH, B_SET, B_SLICE, B_INSERT, B_APPEND };
 static const char *bopn[] = { "new", "array_clone", "array_clone(NULL)", "array::operator=", "array_traits.init", "array_traits.fini", "buffer.addref", "buffer.unref", "buffer.detach",
                               "array_set(1 element @0)", "array_slice(0,1 element)", "array_insert(0,1 element)", "array_append(1 element)" };
-// buffer content kinds: raw bytes, traits A (copy-init that can be made to fail + fini), traits B (different element size, fini only)
+// buffer content kinds: raw bytes, traits A (copy-init that can be made to fail + fini), traits B (different element size, plain copy-init + fini)
 enum { T_RAW, T_A, T_B };
 static const char *tkn[] = { "raw", "traitsA", "traitsB" };
 static bool g_init_fail = false;
 static int ta_init(void *p, const void *s) { if (g_init_fail) return mpt::BadOperation; if (s) memcpy(p, s, 8); else memset(p, 0, 8); return 0; }
 static void t_fini(void *) {}
-static const mpt::type_traits traitsA(8, t_fini, ta_init), traitsB(4, t_fini, 0);
+static int tb_init(void *p, const void *s) { if (s) memcpy(p, s, 4); else memset(p, 0, 4); return 0; }   // a finalizer-only type may not be copied from source data
+static const mpt::type_traits traitsA(8, t_fini, ta_init), traitsB(4, t_fini, tb_init);
 static const mpt::type_traits *tkt(int tk) { return tk == T_A ? &traitsA : (tk == T_B ? &traitsB : 0); }
 static size_t tkes(int tk) { return tk == T_B ? 4 : 8; }
 static const size_t SMALL = 16, LARGE = 96;   // LARGE does not fit the smallest allocation (64 data bytes): a copy into a minimal buffer fails
